@@ -69,7 +69,23 @@ class C13(E1Check):
         return [
             {"name": "csv/auto", "storage": "csv", "auto_index": True},
             {"name": "csv/manual", "storage": "csv", "auto_index": False},
-        ]
+        ] + self.ladder_cfgs()
+
+    def ladder_cfgs(self):
+        from .. import ladder
+
+        out = []
+        for c in ladder.configs((), storages=("csv",), autos=(True,), D=1, big_depth=1):
+            d = dict(c)
+            # an out-of-order insert on top of 1300 rows leaves the index invalid: the next read re-indexes the whole file
+            d.update(name=c["name"] + "/invalid-index", init=c["init"] + (("insert", "P0", None, False, "db"),))
+            out.append(d)
+        return out
+
+    def ladder_op_list(self, cfg):
+        A = self.alpha
+        return [("count", ("cmp", "tags", ("i",), "==", "5"), None), ("get", ("cmp", "tags", ("i",), "==", "1299"), None),
+                ("insert", "P5", None, False, "db")]
 
     def bounds(self):
         return {"N": 4, "D": 3} if self.tier == "quick" else {"N": 5, "D": 4, "max_states": 20000}
@@ -141,7 +157,7 @@ class C13(E1Check):
                     counters["__distinct_nontrivial"] += 1
                 counters[f"faults_{when}_{kind}"] += 1
                 first = True
-                for seq in self.menu:
+                for seq in (self.menu if not T.cfg.get("ladder") else self.menu[:6]):
                     w, plan, exc, val = self._faulted_world(T, k, when, err)
                     if plan.steps[: k] != rec.steps[: k] or plan.injected is None:
                         raise common.ToolingError(f"replay diverged before the fault point: history={T.history!r} op={T.op!r} step={k} "
